@@ -791,8 +791,9 @@ func (s *Server) Invoke(responseWriter http.ResponseWriter, invoke *interop.Invo
 	case err = <-releaseErrChan:
 		log.Debug("Invoke() release error")
 	case <-releaseSuccessChan:
+		// AwaitRelease has released this invocation's reservation (or found it released by a reset);
+		// releasing again here would drop the reservation of a caller that has come in since
 		verifAt("server.beforeFinalRelease")
-		s.Release()
 		log.Debug("Invoke() success")
 	}
 
